@@ -709,6 +709,68 @@ pub fn through_decoder(prop: &str, rep: &mut Report, cube: &Cube, focus: &[KeyCo
         }
         rep.count("presses_judged_after_every_count_of_changes_(forked_object)", steps);
     }
+    // other keys held in the background: a modifier context, every other key Y pressed and kept down, a third key tapped
+    // (and in a second form Y released again), then the focus key – bookkeeping about which keys are down (a bitmap, a
+    // list, "nothing held any more" recoveries) must not reach what the focus key types
+    {
+        let contexts: [&[KeyCode]; 6] = [&[], &[KeyCode::LControl], &[KeyCode::RControl], &[KeyCode::LShift], &[KeyCode::RAltGr], &[KeyCode::LControl, KeyCode::RShift]];
+        let taps = [KeyCode::X, KeyCode::Key5, KeyCode::F3];
+        let mut n_bg = 0u64;
+        for li in [(rep.seed as usize) % cube.n_layouts, ((rep.seed as usize) + 5) % cube.n_layouts] {
+            for (ci, ctx) in contexts.iter().enumerate() {
+                for y in all.iter().filter(|k| !MOD_KEYS.contains(k)) {
+                    for (ti, tap) in taps.iter().enumerate() {
+                        for release_y in [false, true] {
+                            if release_y && ti != 0 {
+                                continue;
+                            }
+                            let r = guarded(|| {
+                                let mut kb = Keyboard::new(ScancodeSet2::new(), dyn_layout(li, 0), MODES[(ci + ti) % 2]);
+                                for k in ctx.iter() {
+                                    let _ = kb.process_keyevent(KeyEvent::new(*k, KeyState::Down));
+                                }
+                                let _ = kb.process_keyevent(KeyEvent::new(*y, KeyState::Down));
+                                let _ = kb.process_keyevent(KeyEvent::new(*tap, KeyState::Down));
+                                let _ = kb.process_keyevent(KeyEvent::new(*tap, KeyState::Up));
+                                if release_y {
+                                    let _ = kb.process_keyevent(KeyEvent::new(*y, KeyState::Up));
+                                }
+                                let mut res = Vec::new();
+                                for f in focus.iter() {
+                                    if f == y || f == tap {
+                                        continue;
+                                    }
+                                    let got = kb.process_keyevent(KeyEvent::new(*f, KeyState::Down));
+                                    res.push((*f, bits_from_mods(kb.get_modifiers()), mode_idx(kb.get_ctrl_handling()), got.map(dk_enc).unwrap_or(ENC_NONE)));
+                                    let _ = kb.process_keyevent(KeyEvent::new(*f, KeyState::Up));
+                                }
+                                res
+                            });
+                            n_bg += 1;
+                            let Ok(res) = r else { continue };
+                            for (f, m, mode, got) in res {
+                                presses += 1;
+                                let Some(ki) = cube.key_index(f) else { continue };
+                                if let Some(want) = judge(cube, acc, li, f, ki, m, mode, got, &mut judged) {
+                                    let gs = if got == ENC_NONE { "None".to_string() } else { cube.show(got) };
+                                    rep.violate(
+                                        format!("{}|via-decoder|{}|key={:?}|want={}|got={}", prop, layout_name(li), f, want, gs),
+                                        format!(
+                                            "{} through Keyboard::process_keyevent: with {:?} held, {:?} pressed and kept down, {:?} tapped{}, the press of {:?} with reported modifiers {} (Ctrl mode {}) typed {}; the property requires {}",
+                                            layout_name(li), ctx, y, tap, if release_y { format!(", {:?} released", y) } else { String::new() }, f, mods_str(m), mode_str(MODES[mode]), gs, want
+                                        ),
+                                        J::obj().with("kind", J::s("background-keys")).with("layout", J::s(layout_name(li))).with("context", J::s(format!("{:?}", ctx))).with("held", J::s(kname(*y))).with("tapped", J::s(kname(*tap))).with("key", J::s(kname(f))),
+                                    );
+                                    break;
+                                }
+                            }
+                        }
+                    }
+                }
+            }
+        }
+        rep.count("histories_with_other_keys_held_in_the_background", n_bg);
+    }
     // heavy typing, then a change of layout (EventDecoder<AnyLayout>): for each focus key K that two layouts A and B type
     // differently – tens of thousands of presses in alternating modifier contexts on A, K, as many presses again,
     // change_layout(B), K: what was typed on A, and how much of it, must not show on B
